@@ -234,7 +234,7 @@ def run(ctx):
     outs = [json.loads(l) for l in r.stdout.splitlines() if l.startswith('{')]
     if len(outs) != len(lines):
         raise vlib.MachineryError('driver answered %d of %d (rc=%s) %s' % (len(outs), len(lines), r.returncode, r.stderr[-800:]))
-    prej, irej = conformance(ctx, os.path.join(SPEC, 'Conf_RangeHdr.tla'), os.path.join(SPEC, 'Conf_RangeHdr.cfg'), outs, 'range')
+    prej, irej = conformance(ctx, os.path.join(SPEC, 'Conf_RangeHdr.tla'), os.path.join(SPEC, 'Conf_RangeHdr.cfg'), outs, 'range', timeout=3000)
     ctx.log('TLC evaluated %d cases: P-rejected %d, I-rejected %d' % (len(outs), len(prej), len(irej)))
     known = load_known('C28')
     iset = set(irej)
